@@ -288,7 +288,7 @@ def oracle(case, obs):
     out = []
     if case['op'] == 'overhang_calc' and case['kind'] == 'level_cty':
         if isinstance(obs, dict) and case.get('overall') == 'none':
-            return [('unexpected_error:' + str(obs.get('err')), 'overall_evaluator=None')]
+            return [('default_overall_evaluator_crashes:' + str(obs.get('err')), 'overall_evaluator=None')]
         try:
             exp = _cty_expected(case)
         except _Refused as x:
@@ -611,6 +611,12 @@ def describe(case):
     if case['wrap'] == 'multistage':
         return f"MultistageDistributor([<stage returning {prev!r}>, {asc}]).evaluate({votes!r}, {case['n']})"
     return f"{asc}.evaluate({votes!r}, {case['n']}, prev_gains={prev!r})"
+
+
+def signature(case, clause):
+    if clause == 'level_floor_unmet_at_zero_with_party_outside_tier':
+        return 'level:floor_unmet_at_zero_with_party_outside_tier'
+    return f"{case.get('op')}:{clause}"
 
 
 TECHNIQUE = ('Lean 4 proofs about evaluator-parametric models of the seat-count adjusters (loop invariant of the fuelled '
